@@ -23,6 +23,7 @@ from vcheck import coq_list, coq_string
 
 HERE = os.path.dirname(os.path.dirname(os.path.abspath(__file__)))
 CORPUS = os.path.join(HERE, "corpus", "C05", "witnesses.jsonl")
+PHRASES = os.path.join(HERE, "coq", "gen", "GenGoroutinesWriter.json")
 
 OUTCOME = {"2xx": "O2xx", "4xx": "O4xx", "5xx": "O5xx", "crash": "OCrash", "hang": "OHang", "leak": "OLeak", "abort": "OAbort"}
 
@@ -60,7 +61,7 @@ def body_to_coq(d):
         return "BOtlp %s" % coq_list(rs)
     if r in ("prom", "lokiproto"):
         sn = {"ok": "SnOk", "toolong": "SnTooLong", "corrupt": "SnCorrupt"}[d["snappy"]]
-        return "BSnappy %s %s" % (sn, b(d.get("fallback_parses")))
+        return "BSnappy %s %s %s" % (sn, b(d.get("fallback_parses")), coq_string(d.get("lbl_tail", "")))
     if r == "influx":
         return "BInflux %s" % coq_string(d.get("precision", ""))
     if r == "lokijson":
@@ -121,6 +122,8 @@ def run_translator(ck):
            "Definition L := Eval vm_compute in gen_snappy_limit.\nPrint L.\n"
            "Definition F := Eval vm_compute in gen_fastfill_callers.\nPrint F.\n"
            "Definition G := Eval vm_compute in gen_ns_guard.\nPrint G.\n"
+           "Definition S := Eval vm_compute in sites_safe gen_error_handler gen_untyped_error_sites.\nPrint S.\n"
+           "Definition NS := Eval vm_compute in Z.of_nat (List.length gen_untyped_error_sites).\nPrint NS.\n"
            "Definition NG := Eval vm_compute in Z.of_nat (List.length gen_goroutines).\nPrint NG.\n")
     ok, out = ck.coq_make(["model/IngestRobust.vo", "gen/GenGoroutinesWriter.vo"])
     if not ok:
@@ -147,7 +150,15 @@ def run_translator(ck):
     ck.obligation("withUnsnappyRequest enforces the 10 MiB decoded-length limit", val("L") == "Some 10485760", "gen_snappy_limit = " + val("L"))
     ck.obligation("impl.fastFill (non-terminating) has no call site", val("F") == "0", "call sites: " + val("F"))
     ck.obligation("unmarshal.ns guards its loop against 0", val("G") == "true", "gen_ns_guard = " + val("G"))
+    ck.obligation("no untyped error built under controller/ or utils/unmarshal/ can start with a text ErrorHandler prefix-matches, "
+                  "and ErrorHandler has no substring test on error texts (client text inside an error cannot silence it)",
+                  val("S") == "true", "sites_safe gen_error_handler gen_untyped_error_sites = " + val("S"))
     ck.extra["goroutines_in_writer"] = val("NG")
+    ck.extra["untyped_error_sites"] = val("NS")
+    try:
+        ck.extra["error_text_phrases_from_source"] = json.load(open(PHRASES))["phrases"]
+    except (OSError, ValueError, KeyError):
+        ck.obligation("phrase list written by the translator", False, PHRASES)
     return True
 
 
@@ -237,7 +248,7 @@ def run_harness(ck):
         n = ck.n(600, 15000)
         nb = ck.n(2000, 50000)
         outp = os.path.join(ck.work, "gen_out.jsonl")
-        rc, out = ck.go_run("ingestfuzz", ["--seed", ck.seed, "--n", n, "--nbytes", nb, "--max-bad", 12, "--out", outp], timeout=6000)
+        rc, out = ck.go_run("ingestfuzz", ["--seed", ck.seed, "--n", n, "--nbytes", nb, "--max-bad", 12, "--phrases-file", PHRASES, "--out", outp], timeout=6000)
         if rc != 0:
             ck.obligation("harness ingestfuzz ran", False, out[-1500:])
             return
